@@ -36,6 +36,23 @@ fn default_cfg_name() -> String {
 
 const CFG_NAMES: &[&str] = &[CFG_NAME, "rvh-c18-app/sub/conf.toml"];
 
+/// (re)creates candidate directory `d` for a Stdfs case: absent, a directory holding the file, or - `linked` - a
+/// symbolic link to such a directory (a system directory that is a link, as /etc/xdg is on some distributions)
+fn place_cfg(d: &str, name: &str, present: bool, linked: bool) {
+    let real = format!("{}.real", d.trim_end_matches('/'));
+    let _ = std::fs::remove_file(d.trim_end_matches('/'));
+    let _ = std::fs::remove_dir_all(d);
+    let _ = std::fs::remove_dir_all(&real);
+    if present && linked {
+        let _ = std::fs::create_dir_all(&real);
+        write_cfg_file(&real, name);
+        let _ = std::os::unix::fs::symlink(&real, d.trim_end_matches('/'));
+    } else if present {
+        let _ = std::fs::create_dir_all(d);
+        write_cfg_file(d, name);
+    }
+}
+
 fn write_cfg_file(dir: &str, name: &str) {
     let p = Path::new(dir).join(name);
     if let Some(par) = p.parent() {
@@ -449,6 +466,10 @@ pub fn run(c: &Ctx) {
                     let present: Vec<String> = cands.iter().enumerate().filter(|(i, _)| mask & (1 << i) != 0).map(|(_, d)| d.clone()).collect();
                     for n in CFG_NAMES {
                         std_cases.push(CfgCase { env: e.clone(), present: present.clone(), stdfs: true, name: n.to_string(), cwd: None, decoys: vec![] });
+                        // the present candidate directories are symbolic links to directories
+                        if mask != 0 && (l == 1 || l == 3) {
+                            std_cases.push(CfgCase { env: e.clone(), present: present.clone(), stdfs: true, name: n.to_string(), cwd: None, decoys: vec!["@linked".to_string()] });
+                        }
                     }
                 }
             }
@@ -465,11 +486,7 @@ pub fn run(c: &Ctx) {
             let cands = candidates(&case.env);
             for d in &cands {
                 if d.starts_with(sb.to_str().unwrap()) {
-                    let _ = std::fs::remove_dir_all(d);
-                    if case.present.contains(d) {
-                        let _ = std::fs::create_dir_all(d);
-                        write_cfg_file(d, &case.name);
-                    }
+                    place_cfg(d, &case.name, case.present.contains(d), case.decoys.iter().any(|x| x == "@linked"));
                 }
             }
             mark("cfg", &serde_json::to_string(case).unwrap());
@@ -516,11 +533,7 @@ pub fn replay(kind: &str, case: &Value) -> Option<CaseResult> {
             if cs.stdfs {
                 for d in candidates(&cs.env) {
                     if d.starts_with("/dev/shm/rvh-") || d.starts_with("/tmp/rvh-") {
-                        let _ = std::fs::remove_dir_all(&d);
-                        if cs.present.contains(&d) {
-                            let _ = std::fs::create_dir_all(&d);
-                            write_cfg_file(&d, &cs.name);
-                        }
+                        place_cfg(&d, &cs.name, cs.present.contains(&d), cs.decoys.iter().any(|x| x == "@linked"));
                     }
                 }
             }
@@ -528,7 +541,7 @@ pub fn replay(kind: &str, case: &Value) -> Option<CaseResult> {
             if cs.stdfs {
                 for d in candidates(&cs.env) {
                     if d.starts_with("/dev/shm/rvh-") || d.starts_with("/tmp/rvh-") {
-                        let _ = std::fs::remove_dir_all(&d);
+                        place_cfg(&d, &cs.name, false, false);
                     }
                 }
             }
